@@ -334,6 +334,7 @@ func (r *FnRun) monitorCall(fr *Frame, fn *ssa.Function, cc *ssa.CallCommon, arg
 	fr.bumpTop()
 	for _, comp := range r.protectedComps(fr, m) {
 		r.Heap.Havoc(fr.st, comp)
+		r.lockTouched[comp] = true // monitor state: other goroutines may change it whenever the lock is free
 	}
 	for i, fv := range lit.FreeVars {
 		if closureWrites(lit, fv) {
